@@ -21,6 +21,7 @@ RuleSets ==
       <<Rule("never", "K0"), Rule("always", "K0")>>,
       \* a shadowed rule's (stateful) trigger is still evaluated, once per execution
       <<Rule("every2", "K0"), Rule("scripted", "K0")>>,
+      <<Rule("always", "BV")>>, <<Rule("every2", "BV"), Rule("always", "U")>>,       \* a lens over a memory that is still empty
       <<Rule("always", "PG")>>, <<Rule("every2", "PG"), Rule("always", "K0")>>,     \* a float state (values above 1 too)
       <<Rule("always", "U"), Rule("scripted", "U"), Rule("scripted", "K0")>>,
       <<Rule("scripted", "U"), Rule("every2", "K0")>>,
@@ -47,7 +48,7 @@ OneStepPerFiringExecution == Len(Log) = Cardinality(FiringIdx)
 
 Names(step) == {step[i].n : i \in 1..Len(step)}
 FiredSrcs(x) == {x.rules[j].src : j \in {j \in 1..Len(x.rules) : x.fired[j] = 1}}
-VisAt(sc, src) == IF src = "MISSING" THEN NoVal
+VisAt(sc, src) == IF src \in {"MISSING", "BV"} THEN NoVal
                   ELSE IF src = "PG" THEN (IF Vis(sc, "K0") = NoVal THEN NoVal ELSE 3 * Vis(sc, "K0"))
                   ELSE Vis(sc, src)
 
@@ -61,7 +62,7 @@ StepsExact ==
         /\ Len(step) = Cardinality(Names(step))                    \* no name twice
         /\ step[1].n = "IT" \/ "IT" \in FiredSrcs(x)
         /\ \A i \in 1..Len(step) : step[i].v = VisAt(x.sc, step[i].n)
-        /\ \A i \in 1..Len(step) : step[i].n = "MISSING" => step[i].v = NoVal
+        /\ \A i \in 1..Len(step) : step[i].n \in {"MISSING", "BV"} => step[i].v = NoVal
 
 \* entries keep rule order (first rule wins for a repeated name)
 RuleOrderKept ==
